@@ -280,6 +280,8 @@ struct Scn {
     pg: PeerGates,
     /// identity-takeover plan (scripts per client), None in the ordinary table cells
     tk: Option<takeover::TkPlan>,
+    /// rotates the length class of the long alias (peer ids restart at 0 in every scenario)
+    salt: u64,
 }
 
 impl Scn {
@@ -298,14 +300,23 @@ impl Scn {
     fn alias_a(peer: u64) -> String {
         format!("a-{peer}")
     }
-    fn alias_b(peer: u64) -> String {
-        format!("b-{peer}")
+    /// The second alias is token-like: from a few bytes to several KiB (lengths around powers of two), non-ASCII in part, and
+    /// with the peer-specific text at the END, so keys of different peers share a long common prefix.
+    fn alias_b(&self, peer: u64) -> String {
+        const LENS: [usize; 10] = [0, 100, 255, 256, 1023, 1024, 1025, 4097, 20_000, 70_000];
+        let n = LENS[((peer + self.salt) % 10) as usize];
+        let mut k = String::with_capacity(n + 24);
+        while k.len() < n {
+            k.push(if peer % 3 == 0 && k.len() % 7 == 0 { 'é' } else { 'k' });
+        }
+        k.push_str(&format!("b-{peer}"));
+        k
     }
     /// (get, get_by(a), get_by(b)) — "present" means the lookup returns *this* peer.
     fn probe(&self, peer: u64) -> (bool, bool, bool) {
         let g = self.reg.get(PeerId(peer)).map(|h| h.peer_id().0 == peer).unwrap_or(false);
         let a = self.reg.get_by(Self::alias_a(peer).as_str()).map(|h| h.peer_id().0 == peer).unwrap_or(false);
-        let b = self.reg.get_by(Self::alias_b(peer).as_str()).map(|h| h.peer_id().0 == peer).unwrap_or(false);
+        let b = self.reg.get_by(self.alias_b(peer).as_str()).map(|h| h.peer_id().0 == peer).unwrap_or(false);
         (g, a, b)
     }
     fn probe_ev(&self, peer: u64, site: &'static str) {
@@ -467,7 +478,7 @@ fn build_server(sc: &Arc<Scn>, cap: usize) -> WebSocketServer {
         .on_peer_connect(move |peer: PeerHandle| {
             let p = peer.peer_id().0;
             let ok_a = s1.reg.alias(peer.peer_id(), Scn::alias_a(p));
-            let ok_b = s1.reg.alias(peer.peer_id(), Scn::alias_b(p));
+            let ok_b = s1.reg.alias(peer.peer_id(), s1.alias_b(p));
             let (get, by_a, by_b) = s1.probe(p);
             let hello_ok = peer.send_notify("/hello1", NotifyBody::Json(serde_json::to_vec(&json!({ "peer": p })).unwrap())).is_ok();
             s1.push(Ev::Connect1 { peer: p, alias_ok: ok_a && ok_b, hello_ok, get, by_a, by_b });
@@ -1087,6 +1098,7 @@ async fn run_scenario_inner(spec: Spec, env: Arc<Env>) -> Out {
     let hook_release = phase == Phase::OffReader && cause.is_some() && Rng::new(spec.seed ^ 0x0D15_C0DE).chance(3, 4);
 
     let sc = Arc::new(Scn {
+        salt: spec.seed >> 7,
         log: Mutex::new(Vec::new()),
         hgate: Gate::new(),
         cgate: Gate::new(),
